@@ -308,7 +308,10 @@ MEM_STATIC size_t ZSTD_initLegacyStream(void** legacyContext, U32 prevVersion, U
         dict = &x;
     }
     DEBUGLOG(5, "ZSTD_initLegacyStream for v0.%u", newVersion);
-    if (prevVersion != newVersion) ZSTD_freeLegacyStreamContext(*legacyContext, prevVersion);
+    if (prevVersion != newVersion) {
+        ZSTD_freeLegacyStreamContext(*legacyContext, prevVersion);
+        *legacyContext = NULL;   /* nothing dangling if the new context cannot be created */
+    }
     switch(newVersion)
     {
         default :
